@@ -1690,7 +1690,7 @@ pub fn step<const N: usize, P: Pad>(
     let live = ledger_live();
     let want = model.len() as u64;
     let base_live = live_before.saturating_sub(before.len() as u64); // elements alive outside this buffer
-    if live != want + base_live {
+    if P::DROP && live != want + base_live {
         if live > want + base_live {
             // leaks are allowed only after a destructor panic or a leaked drain
             let allowed_leak = fkind == Some(FpKind::Drop) || matches!(op, Op::Drain(_, _, End::Forget));
@@ -1866,7 +1866,7 @@ pub fn teardown<const N: usize, P: Pad>(
     }
     flush_events(ctx, opname, N, "teardown", fault);
     let live = ledger_live();
-    if live != 0 && !allow_leak {
+    if P::DROP && live != 0 && !allow_leak {
         let prop = if fault.is_some() && fault != Some(FpKind::Drop) { "C06" } else { "C03" };
         ctx.violation(
             prop,
